@@ -52,7 +52,8 @@ def _ops():
     )
     lines = gen.with_ack(gen.weighted((6, missing_kinds), (2, present), (2, never))).map(lambda l: ["rx", l])
     pause = st.sampled_from((1, 59, 61, 600, 3600, 86400)).map(lambda t: ["sleep", t])
-    events = st.sampled_from((["save"], ["reload"], ["session"], ["read_error", "read"], ["read_error", "failed"]))
+    events = st.sampled_from((["save"], ["reload"], ["session"], ["read_error", "read"], ["read_error", "failed"], ["send", [5, 255, 3, 0, 19, ""], None], ["send", [1, 255, 3, 0, 19, ""], None],
+                              ["send", [2, 255, 3, 0, 19, ""], False]))
     return st.lists(gen.weighted((20, lines), (2, pause), (1, events)), min_size=8, max_size=30)
 
 
@@ -72,6 +73,9 @@ BETWEEN = (
     ["rx", "0;255;3;0;2;2.0.1\n"], ["rx", "0;255;3;1;2;2.2\n"], ["rx", "5;1;0;0;6;child\n"], ["rx", "5;255;3;0;6;0\n"], ["rx", "5;255;3;0;1;\n"], ["rx", "5;255;3;0;18;\n"],
     ["rx", "6;1;1;0;0;1\n"], ["rx", "255;255;3;0;3;\n"], ["rx", "5;7;3;0;3;\n"], ["rx", "0;255;3;0;14;ready\n"], ["rx", "0;255;3;0;9;log\n"], ["rx", "junk\n"],
     ["rx", "5;255;3;0;19;\n"], ["rx", "5;255;3;0;21;\n"], ["session"], ["sleep", 61], ["sleep", 86400], ["install", 5], ["install", 6], ["save"], ["reload"], ["read_error", "read"], ["read_error", "failed"], ["read_error", "base"],
+    # the application itself sends a presentation request / other commands to the node
+    ["send", [5, 255, 3, 0, 19, ""], None], ["send", [5, 255, 3, 1, 19, ""], False], ["send", [6, 255, 3, 0, 19, ""], None], ["send", [5, 255, 3, 0, 13, ""], None], ["send", [5, 1, 2, 0, 0, ""], None],
+    ["send", [5, 1, 1, 0, 0, "1"], None],
 )
 
 
@@ -84,6 +88,10 @@ def enumerate_cases(tier: str):
                     for second in (MISSING_KINDS[0], MISSING_KINDS[4]):
                         yield {"version": version, "registry": registry, "fail_requests": [], "listen_mode": "persistent" if len(first) % 2 else "fresh",
                                "ops": [["rx", first], between, ["rx", second], ["rx", "6;9;1;0;0;1\n"]]}
+                for event in BETWEEN:
+                    if event[0] == "send":
+                        # ... also BEFORE the first rejected message of the episode
+                        yield {"version": version, "registry": registry, "fail_requests": [], "listen_mode": "fresh", "ops": [event, ["rx", first], ["rx", MISSING_KINDS[0]]]}
 
 
     # a request whose write hangs until the application's receive timeout cancels it was never sent either
